@@ -366,6 +366,29 @@ class ExprGen(Gen):
         if t == "NS": return {"NS": r.sample(["1", "2", "10", "1.5"], r.randrange(1, 4))}
         return {"BS": r.sample(["x", "xy", "\x01"], r.randrange(1, 3))}
 
+    def related_value(self, own):
+        """a value of the same type that contains, or is contained in, the given one"""
+        import json as _json
+        r = self.r
+        v = _json.loads(_json.dumps(own))
+        t = list(v)[0]
+        grow = r.random() < 0.5
+        if t == "M":
+            if grow or not v["M"]: v["M"]["zz" if "zz" not in v["M"] else "zy"] = S("extra")
+            else: v["M"].pop(r.choice(sorted(v["M"])))
+        elif t == "L":
+            if grow or not v["L"]: v["L"].append(S("extra"))
+            else: v["L"].pop()
+        elif t in ("SS", "BS"):
+            if grow or len(v[t]) < 2: v[t] = v[t] + ["zz"]
+            else: v[t] = v[t][:-1]
+        elif t == "NS":
+            if grow or len(v[t]) < 2: v[t] = v[t] + ["77"]
+            else: v[t] = v[t][:-1]
+        elif t in ("S", "B"):
+            v[t] = v[t] + "x" if grow or not v[t] else v[t][:-1]
+        return v
+
     def expr_item(self):
         r = self.r
         it = {}
@@ -389,6 +412,11 @@ class ExprGen(Gen):
         if v and "L" in v and r.random() < 0.6:
             # index at, just before and just past the end of the list
             n = len(v["L"])
+            if r.random() < 0.15:
+                # the index given through a value placeholder, negative and fractional numbers included
+                name = ":i%d" % len(ctx["values"])
+                ctx["values"][name] = N(r.choice(["-1", "0", str(n), "1.5", "-0", "1e0"]))
+                return base + "[%s]" % name
             return base + "[%d]" % r.choice([max(n - 1, 0), n, n, n + 1, 0])
         if v and "M" in v and v["M"] and r.random() < 0.6:
             return base + "." + r.choice(list(v["M"]))
@@ -425,6 +453,13 @@ class ExprGen(Gen):
                 if r.random() < 0.3:
                     pth = self.path(ctx)
                     own = (ctx.get("item") or {}).get(pth)
+                    if own and r.random() < 0.4:
+                        # a value structurally close to the attribute's own: a sub- or super-container of it
+                        rel = self.related_value(own)
+                        name = ":v%d" % len(ctx["values"]); ctx["values"][name] = rel
+                        form = r.choice(["%s = %s", "%s <> %s", "%s IN (%s)", "contains(%s, %s)"])
+                        a, b_ = (pth, name) if r.random() < 0.6 or "IN" in form or "contains" in form else (name, pth)
+                        return form % (a, b_)
                     if own:
                         name = ":v%d" % len(ctx["values"]); ctx["values"][name] = own
                         return "%s %s %s" % ((pth, r.choice(["=", "<>", "<", "<=", ">", ">="]), name) if r.random() < 0.5 else (name, r.choice(["=", "<=", ">=", "<", ">"]), pth))
@@ -506,6 +541,12 @@ class ExprGen(Gen):
             tgt = tg
             if r.random() < 0.05: tg = tgt = r.choice(RESERVED_SAMPLE)
             if r.random() < 0.25: tgt = tg + r.choice([".x", "[0]", "[1]", ".y.z", "[7]"])
+            own = ctx["item"].get(tg)
+            if own and "L" in own and r.random() < 0.5:
+                # a list element addressed through a value placeholder: negative, zero, past the end, fractional
+                name = ":i%d" % len(ctx["values"])
+                ctx["values"][name] = N(r.choice(["-1", "-1", "0", str(len(own["L"])), "1.5", "-2"]))
+                tgt = "%s[%s]" % (tg, name)
             if r.random() < 0.06:
                 ctx["names"]["#t"] = tg; tgt = "#t" if "." not in tgt and "[" not in tgt else tgt
             if k < 0.5:
